@@ -29,10 +29,11 @@ OffOf(cls) ==
 TTLOf(cls) ==
   CASE cls = "unset" -> Unset
     [] cls = "zero" -> 0
+    [] cls = "neg" -> -30           \* a negative duration: no more than zero
     [] cls = "short" -> 12
     [] cls = "long" -> 7200
 
-TTLClasses == {"unset", "zero", "short", "long"}
+TTLClasses == {"unset", "zero", "neg", "short", "long"}
 AuthExp == {"absent", "far", "mid", "inleeway", "justpassed", "longpassed"}
 
 (* mechanism table: kind, expiry classes, catalogue TTL classes, rule-level override classes, *)
